@@ -97,7 +97,9 @@ def soup(rng: random.Random, maxlen: int = 60) -> str:
 
 _IDS = ('a', 'b', 'foo', 'x1', '_y', 'meson', 'return')
 _STRS = ("'s'", "''", "'a b'", "'it\\'s'", "'\\\\'", "'\\n'", "'@0@'", "f'@a@'", "'''m'''", "'''l1\nl2'''", "f'''a\n@b@\n'''",
-         "'é'", "'\\x41\\101\\u00e9'", "'#no comment'", "''''q'''")
+         "'é'", "'\\x41\\101\\u00e9'", "'#no comment'", "''''q'''",
+         # line-ending bytes INSIDE a token (text handed to the parser without newline translation)
+         "'''l1\r\nl2\r\n'''", "f'''@a@\r\n\r'''", "'a\rb'", "'''\n\r'''")
 _NUMS = ('0', '1', '42', '0x1f', '0o17', '0b101', '0XFF', '1234567890123456789012')
 _BIN = ('+', '-', '*', '/', '%', '==', '!=', '<', '<=', '>', '>=', 'in', 'not in', 'and', 'or', 'not  in', 'not\\\n in')
 
@@ -193,7 +195,10 @@ _TOK = re.compile(r"""f?'''.*?'''|f?'(?:[^'\\\n]|\\.)*'|\#[^\n]*|[A-Za-z_]\w*|\d
 HOSTILE = ("'", "\\", '\r', '\r\n', '\t', '\ufeff', '\x00', '\u00e9', '\u2028', '\x0c', '"', "'''", '\n', '\\\n', "f'", '@',
            '\x85', '\x1c', '\u2029', '\x0b', '\U0001F600', '\ud800', '\\N{x}', '\\U99999999', ' not ', '()', '\u00a0')
 MUTATION_KINDS = ('tok-delete', 'tok-dup', 'tok-swap', 'tok-insert', 'byte-insert', 'byte-replace', 'byte-delete',
-                  'bom', 'crlf', 'truncate')
+                  'bom', 'crlf', 'truncate', 'inner-byte')
+# tokens that carry free content: a hostile byte placed INSIDE one of them must survive the round trip (a byte
+# placed between tokens mostly ends in a lexer error and never reaches the tree)
+_CONTENT_TOK = re.compile(r"""f?'''.*?'''|f?'(?:[^'\\\n]|\\.)*'|\#[^\n]*""", re.S)
 
 
 def split_tokens(text: str) -> T.List[str]:
@@ -222,7 +227,36 @@ def mutate(rng: random.Random, text: str, kind: T.Optional[str] = None) -> T.Tup
     if kind == 'bom':
         return kind, '\ufeff' + text
     if kind == 'crlf':
-        return kind, text.replace('\n', '\r\n') if rng.random() < 0.5 else text.replace('\n', '\r\n', rng.randint(1, 3))
+        r = rng.random()
+        if r < 0.25:
+            return kind, text.replace('\n', '\r\n')
+        if r < 0.45:
+            return kind, text.replace('\n', '\r\n', rng.randint(1, 3))
+        if r < 0.75:
+            # only the newlines INSIDE content tokens (multi-line strings; a file whose other line ends are LF)
+            def inner(m: 're.Match[str]') -> str:
+                return m.group().replace('\n', rng.choice(('\r\n', '\r\n', '\r\n', '\n\r', '\r')))
+            m = _CONTENT_TOK.sub(inner, text)
+            if m != text:
+                return kind, m
+        # an arbitrary subset of the line ends
+        p = rng.choice((0.1, 0.5))
+        return kind, ''.join(('\r\n' if ch == '\n' and rng.random() < p else ch) for ch in text)
+    if kind == 'inner-byte':
+        spots = [m.span() for m in _CONTENT_TOK.finditer(text)]
+        if not spots:
+            pos = rng.randint(0, len(text))
+            return kind, text[:pos] + rng.choice(HOSTILE) + text[pos:]
+        a, b = rng.choice(spots)
+        tok = text[a:b]
+        head = 1 if tok.startswith('#') else (len(tok) - len(tok.lstrip('f'))) + (3 if "'''" in tok[:4] else 1)
+        tail = 0 if tok.startswith('#') else (3 if tok.endswith("'''") and len(tok) >= head + 3 else 1)
+        lo, hi = a + head, max(a + head, b - tail)
+        pos = rng.randint(lo, hi)
+        payload = rng.choice(HOSTILE)
+        if rng.random() < 0.3 and pos < hi:
+            return kind, text[:pos] + payload + text[pos + 1:]
+        return kind, text[:pos] + payload + text[pos:]
     if kind == 'truncate':
         return kind, text[:rng.randint(0, len(text))]
     pos = rng.randint(0, len(text))
@@ -231,6 +265,83 @@ def mutate(rng: random.Random, text: str, kind: T.Optional[str] = None) -> T.Tup
     if kind == 'byte-replace':
         return kind, text[:pos] + rng.choice(HOSTILE) + text[pos + 1:]
     return kind, text[:pos] + text[pos + rng.randint(1, 3):]
+
+
+# --------------------------------------------------------------------------------------------------
+# every byte class inside every token kind (exhaustive product, no randomness)
+
+# what can occur in a Python str handed to the parser: line-ending bytes in every combination, controls, separators
+# other tools treat as line ends, BOM, NUL, non-ASCII, astral, lone surrogate, quote / escape / substitution syntax
+BYTE_CLASSES: T.Tuple[str, ...] = (
+    'a', ' ', '\t', '\n', '\r', '\r\n', '\n\r', '\r\r\n', '\r\n\r\n',
+    '\x00', '\x08', '\x0b', '\x0c', '\x1b', '\x1c', '\x1d', '\x1e', '\x7f', '\x85', '\xa0', '\u2028', '\u2029', '\ufeff',
+    '\u00e9', '\u0301', '\U0001F600', '\ud800',
+    '"', "\\'", "''", '\\\\', '\\n', '\\r', '\\x41', '\\101', '\\u00e9', '\\N{DIGIT ONE}', '\\q', '\\\n', '\\\r\n',
+    '@', '@a@', '@@', '@0@', '#', '# c', "f'", '{', '}',
+)
+# token kinds with content: templates with %s where the payload goes (start / middle / end / alone / doubled /
+# next to a real newline)
+_POS = ('%s', '%sb', 'a%s', 'a%sb', 'a%s%sb', 'a\n%sb', 'a%s\nb')
+TOKEN_CONTENT: T.Dict[str, T.Tuple[str, ...]] = {
+    'string': tuple("'" + p + "'" for p in _POS[:5]),
+    'fstring': tuple("f'" + p + "'" for p in _POS[:5]) + ("f'@v@%s'",),
+    'multiline_string': tuple("'''" + p + "'''" for p in _POS),
+    'multiline_fstring': tuple("f'''" + p + "'''" for p in _POS) + ("f'''@v@%s\n@w@'''",),
+    'comment': tuple('# ' + p for p in _POS[:5]) + ('#%s',),
+    'continuation': ('\\ # a%sb\n  +', '\\%s\n  +', '\\ #%s\n  +'),
+    'blank': ('%s', ' %s', '%s '),                      # the payload as the separator between two tokens
+}
+# where the token goes: %T = the token (twice in some), something with an extent AFTER it in most (so that line /
+# column bookkeeping after the token is observed by the extent contracts)
+_CTX_VALUE = ('x = %T\n', 'x = %T', 'f(%T, k : %T)\ny = [1]\n', 'x = [%T,\n  %T]\nz = g(x)\n', 'd = {%T : %T}\n',
+              'if %T == %T\n  m(%T)\nendif\n', 'x = %T.format(%T)\ny = [1, 2]\n')
+_CTX_COMMENT = ('x = 1 %T\ny = [1]\n', '%T\nx = f(1)\n', 'x = [1, %T\n 2]\ny = f(x)\n', 'f(a, %T\n b)\n', 'x = 1\n%T')
+_CTX_CONT = ('x = 1 %T 2\ny = [1]\n', 'x = f(1 %T 2)\n')
+_CTX_BLANK = ('x =%T1\ny = [1]\n', 'x = [1,%T2]\n', 'f(a%T)\n', 'x%T= 1\n', 'if a%T\nendif\n', "x = 'a'%T\ny = [1]\n", 'x = 1%T')
+_CTX_OF = {'comment': _CTX_COMMENT, 'continuation': _CTX_CONT, 'blank': _CTX_BLANK}
+
+
+def byte_class_texts(kind: str) -> T.Iterator[T.Tuple[str, str]]:
+    """(payload, text) for every template x payload x context of one token kind."""
+    for payload in BYTE_CLASSES:
+        for tmpl in TOKEN_CONTENT[kind]:
+            tok = tmpl.replace('%s', payload)
+            for ctx in _CTX_OF.get(kind, _CTX_VALUE):
+                yield payload, ctx.replace('%T', tok)
+
+
+# --------------------------------------------------------------------------------------------------
+# tokens of extreme length, every kind (exhaustive product, no randomness)
+
+# around 2**63 / 2**64 / 2**128 (19, 20, 39 digits), around the 4300-digit limit of Python's int() for decimal
+# strings (non-decimal bases have no limit), and far beyond
+EXTREME_LENGTHS: T.Tuple[int, ...] = (1, 18, 19, 20, 39, 40, 310, 4299, 4300, 4301, 4302, 10000, 50000)
+EXTREME_TOKENS: T.Dict[str, T.Tuple[T.Callable[[int], str], ...]] = {
+    'decimal': (lambda n: '1' * n, lambda n: '9' * n, lambda n: '1' + '0' * (n - 1)),
+    'hex': (lambda n: '0x' + 'f' * n, lambda n: '0X' + 'A0' * (n // 2) + '1'),
+    'octal': (lambda n: '0o' + '7' * n, lambda n: '0O' + '1' + '0' * (n - 1)),
+    'binary': (lambda n: '0b' + '1' * n, lambda n: '0B' + '10' * (n // 2) + '1'),
+    'zero-led': (lambda n: '0' * n + '1', lambda n: '0x'),          # not numbers of the language: must be located errors
+    'id': (lambda n: 'a' * n, lambda n: '_' + 'a1' * (n // 2)),
+    'string': (lambda n: "'" + 'a' * n + "'", lambda n: "'" + '\\n' * (n // 2) + "'", lambda n: "f'" + '@a@' * (n // 3 + 1) + "'"),
+    'multiline': (lambda n: "'''" + 'a\n' * (n // 2 + 1) + "'''", lambda n: "f'''" + "'" * 2 + 'a' * n + "'''"),
+    'comment': (lambda n: '#' + 'c' * n, lambda n: '# ' + '# ' * (n // 2)),
+    'blank': (lambda n: ' ' * n, lambda n: '\t' * n, lambda n: ' \\\n' * (n // 3 + 1)),
+    'newlines': (lambda n: '\n' * min(n, 10000), lambda n: ' # c\n' * min(n // 5 + 1, 2000)),
+}
+_CTX_EXTREME_VALUE = ('x = %T\n', '%T', 'f(%T, k : %T)\ny = [%T]\n', 'x = -%T\ny = [1]\n', 'x = a[%T]\n',
+                      'if %T == %T\n  z = g()\nendif\n')
+_CTX_EXTREME_TRIVIA = ('x = 1 %T\ny = [1]\n', 'x = [1,%T2]\nz = f(x)\n', '%T', 'x = 1%T')
+
+
+def extreme_length_texts(kind: str) -> T.Iterator[T.Tuple[int, str]]:
+    """(length, text) for every length x token maker x context of one kind."""
+    ctxs = _CTX_EXTREME_TRIVIA if kind in ('comment', 'blank', 'newlines') else _CTX_EXTREME_VALUE
+    for n in EXTREME_LENGTHS:
+        for mk in EXTREME_TOKENS[kind]:
+            tok = mk(n)
+            for ctx in ctxs:
+                yield n, ctx.replace('%T', tok)
 
 
 # --------------------------------------------------------------------------------------------------
@@ -276,5 +387,26 @@ DEEP_FORMS: T.Dict[str, T.Callable[[int], str]] = {
     'unclosed-paren': lambda d: 'x = ' + '(' * d + '\n',
     'array-list': lambda d: 'x = [' + '1, ' * d + ']\n',          # wide, not deep: control
     'statements': lambda d: 'x = 1\n' * d,                        # long, not deep: control
+    # more nesting shapes (every bracket kind in every argument position, mixed, blocks in blocks)
+    'array-elem': lambda d: 'x = ' + '[1, ' * d + '2' + ']' * d + '\n',
+    'dict-key': lambda d: 'x = ' + '{[' * d + '1' + "]:'v'}" * d + '\n',
+    'kwarg-value': lambda d: 'f(k : ' * d + '1' + ')' * d + '\n',
+    'method-args': lambda d: 'x = ' + 'a.m(' * d + '1' + ')' * d + '\n',
+    'call-array': lambda d: 'f([' * d + '])' * d + '\n',
+    'mixed-brackets': lambda d: 'x = ' + ''.join(('(', '[', "{'k':", 'f(')[i % 4] for i in range(d)) + '1'
+    + ''.join((')', ']', '}', ')')[i % 4] for i in reversed(range(d))) + '\n',
+    'paren-binary': lambda d: 'x = ' + '1 + (' * d + '1' + ')' * d + '\n',
+    'ternary-paren': lambda d: 'x = ' + 'a ? b : (' * d + 'c' + ')' * d + '\n',
+    'fstring-array': lambda d: 'x = ' + "[f'@a@', " * d + "'''m\n'''" + ']' * d + '\n',
+    'else-if': lambda d: 'if a\nelse\n' * d + 'x = 1\n' + 'endif\n' * d,
+    'elif-list': lambda d: 'if a\n' + 'elif a\n' * d + 'endif\n',              # wide, not deep: control
+    'if-foreach': lambda d: ''.join(('if a\n', 'foreach i : l\n')[i % 2] for i in range(d)) + 'x = 1\n'
+    + ''.join(('endif\n', 'endforeach\n')[i % 2] for i in reversed(range(d))),
+    'plusassign-chain': lambda d: 'x += ' + 'a = ' * d + '1\n',
+    'mul-chain': lambda d: 'x = 2' + ' * 2' * d + '\n',
+    'or-chain': lambda d: 'x = a' + ' or a' * d + '\n',
+    'compare-paren-chain': lambda d: 'x = ' + '(' * d + 'a' + ' == a)' * d + '\n',
+    'string-plus-chain': lambda d: 'x = ' + "'a' + " * d + "'''b\n'''" + '\n',
 }
 DEEP_DEPTHS = (10, 30, 60, 90, 120, 200, 400, 1000, 3000)
+DEEP_MAX = 3000
